@@ -206,6 +206,8 @@ package blockwise
 //@   ensures [lone-final-block-of-upload-refused] called(DecodeBlockOption) && callRes(DecodeBlockOption, 0, 3) == nil && blockType == 27 && !callRes(DecodeBlockOption, 0, 2) && callRes(DecodeBlockOption, 0, 1) != 0 && notCalled(getCachedReceivedMessage) ==> err != nil && notCalled(next)
 //@   ensures [lone-final-block-of-download-refused] called(DecodeBlockOption) && callRes(DecodeBlockOption, 0, 3) == nil && blockType == 23 && !callRes(DecodeBlockOption, 0, 2) && callRes(DecodeBlockOption, 0, 1) != 0 && notCalled(getCachedReceivedMessage) && !(called(asksForBlock2) && callRes(asksForBlock2, 0, 0)) ==> err != nil && notCalled(next)
 //@   ensures [asks-about-this-block] called(asksForBlock2) ==> callArg(asksForBlock2, 0, 0) == callRes(getSentRequest, 0, 0) && callArg(asksForBlock2, 0, 1) == callRes(DecodeBlockOption, 0, 1)
+//@   ensures [follow-up-request-of-a-notification-forgotten] called(next) && called(copyToPayloadFromOffset) && callCount(Token) >= 2 ==> callCount(Equal) == 1 && callArg(Equal, 0, 0) == callRes(Token, callCount(Token) - 1, 0) && (callRes(Equal, 0, 0) ==> callCount(Delete) == 1) && (!callRes(Equal, 0, 0) ==> callCount(Delete) == 2 && callArg(Delete, 1, 0) == b.sendingMessagesCache.Map && callArg(Delete, 1, 1) == callArg(Delete, 0, 1))
+//@   ensures [assembled-message-asked-for-its-token] called(next) && called(copyToPayloadFromOffset) ==> callCount(Token) >= 2
 //@   ensures [incomplete-not-delivered] called(getCachedReceivedMessage) && callRes(DecodeBlockOption, 0, 2) ==> notCalled(next)
 //@   ensures [asks-for-next-block] called(getCachedReceivedMessage) && callRes(DecodeBlockOption, 0, 2) && err == nil ==> callCount(SetMessage) == 1 && callCount(EncodeBlockOption) == 1 && callArg(EncodeBlockOption, 0, 0) == min(callRes(DecodeBlockOption, 0, 0), maxSzx) && callArg(EncodeBlockOption, 0, 2)
 //@   ensures [failure-forgets-transfer] err != nil && called(getCachedReceivedMessage) && callRes(getCachedReceivedMessage, 0, 2) == nil ==> called(Delete)
